@@ -236,8 +236,26 @@ def r7_5(ctx):
         defs = [x for x in walk_local(f.node) if isinstance(x, ast.Assign) and len(x.targets) == 1 and norm(x.targets[0]) == h.id]
         init = [d for d in defs if isinstance(d.value, ast.Constant) and isinstance(d.value.value, int) and d.value.value >= 1]
         grow = [d for d in defs if isinstance(d.value, ast.Call) and norm(d.value.func) == "max" and any(norm(a) == h.id for a in d.value.args)]
-        other = [d for d in defs if d not in init and d not in grow]
-        ok = bool(init) and not other
+        def at_least_one(v):
+            """max(...) with a constant >= 1 among its arguments / list elements: max(1, x), max([..] + [1]), max(xs, default=1) is not (empty -> default only)"""
+            if not (isinstance(v, ast.Call) and norm(v.func) == "max"):
+                return False
+            def has_const(e):
+                if isinstance(e, ast.Constant) and isinstance(e.value, int) and not isinstance(e.value, bool) and e.value >= 1:
+                    return True
+                if isinstance(e, (ast.List, ast.Tuple)):
+                    return any(has_const(x) for x in e.elts)
+                if isinstance(e, ast.BinOp) and isinstance(e.op, ast.Add):
+                    return has_const(e.left) or has_const(e.right)
+                if isinstance(e, ast.Starred):
+                    return False
+                return False
+            if len(v.args) >= 2:
+                return any(isinstance(a, ast.Constant) and isinstance(a.value, int) and a.value >= 1 for a in v.args)
+            return len(v.args) == 1 and has_const(v.args[0])
+        single = [d for d in defs if at_least_one(d.value)]
+        other = [d for d in defs if d not in init and d not in grow and d not in single]
+        ok = (bool(init) or bool(single)) and not other
         ctx.check(ok, f.fq, "; ".join(norm(d) for d in defs), where, f"`{h.id}` starts at >= 1 and only grows by max({h.id}, ...)",
                   f"row height `{h.id}` is defined by {[norm(d) for d in defs]}: it can be 0 when every cell of a row renders to no lines, so that row vanishes instead of occupying a line of its own")
         # the same height is used for every cell of the row and for the line loop
